@@ -2,6 +2,7 @@
 From Cctp Require Import Lib.Bytes Lib.SMap.
 From Cctp Require Import Model.Codec Model.State Model.Ledger Model.Handlers Model.Chain Model.Queries.
 From Cctp Require Import Proofs.MonadFacts Proofs.FrameFacts Proofs.FlowFacts Proofs.HistoryFacts.
+From Cctp Require Import Vectors.Examples.
 
 (* [nn s] is the next-available nonce (0 when unset); [producer t]: send, send-with-caller, deposit,
    deposit-with-caller; [ok_producers e c h]: the number of successful producers in history h. *)
@@ -56,6 +57,28 @@ Theorem C07_replace_deposit_reuses_original_nonce : forall e c plan from orig at
     encode_message (msg_of (m_dst m) (m_recipient m) caller (m_sender m) (m_nonce m) body) = Some bz.
 Proof. exact replace_deposit_reuses_nonce. Qed.
 
+(* Over a whole history: the nonces answered by the successful producing transactions, in order, are the
+   consecutive uint64 values starting at the counter the history began with ([produced e c h] collects the
+   nonce of every producing transaction's response; failed ones answer none) ... *)
+Theorem C07_nonces_over_a_history_are_consecutive : forall e h c, (nn (c_st c) < two64)%N ->
+  produced e c h = map (fun i : nat => ((nn (c_st c) + N.of_nat i) mod two64)%N) (seq 0 (length (produced e c h))).
+Proof. intros e h. exact (produced_consecutive e h). Qed.
+
+(* ... there are exactly as many of them as successful producers ... *)
+Theorem C07_one_nonce_per_successful_producer : forall e h c, N.of_nat (length (produced e c h)) = ok_producers e c h.
+Proof. intros e h. exact (produced_length e h). Qed.
+
+(* ... and none is handed out twice until 2^64 of them have been handed out. *)
+Theorem C07_nonces_over_a_history_are_distinct : forall e h c, (nn (c_st c) < two64)%N ->
+  (N.of_nat (length (produced e c h)) <= two64)%N -> NoDup (produced e c h).
+Proof. intros e h c. exact (produced_nodup e h c). Qed.
+
+(* the statements are about something: two deposits, a failing one between them *)
+Example C07_example :
+  produced ex_env ex_chain [([], ex_deposit); ([], DepositForBurn ex_bob (Some 1%Z) 0 (repeat Byte.x07 32) (B "uusdc")); ([], ex_deposit)]
+  = [nn (c_st ex_chain); (nn (c_st ex_chain) + 1)%N].
+Proof. vm_compute. reflexivity. Qed.
+
 Print Assumptions C07_response_nonce_is_counter_and_is_in_the_message.
 Print Assumptions C07_counter_step.
 Print Assumptions C07_counter_tracks_successes.
@@ -63,3 +86,6 @@ Print Assumptions C07_query_returns_counter.
 Print Assumptions C07_replacements_keep_the_counter.
 Print Assumptions C07_replace_message_reuses_original_nonce.
 Print Assumptions C07_replace_deposit_reuses_original_nonce.
+Print Assumptions C07_nonces_over_a_history_are_consecutive.
+Print Assumptions C07_one_nonce_per_successful_producer.
+Print Assumptions C07_nonces_over_a_history_are_distinct.
